@@ -286,7 +286,11 @@ pub fn run(seed: u64, n: u64, thorough: bool, corpus: &[String], dir: &str) {
                 Err(_) => "PANIC".to_string(),
             };
             out.count("variant_cases");
-            if bytes != serde_amqp::to_vec(&v).unwrap_or_default() {
+            let own = catch_unwind(AssertUnwindSafe(|| serde_amqp::to_vec(&v)));
+            if own.is_err() {
+                out.violation("c05-encoder-panic", "to_vec panics on a well-formed value", &format!("enc {}", text(&v)));
+            }
+            if bytes != own.ok().and_then(|r| r.ok()).unwrap_or_default() {
                 out.nontrivial(&line);
             }
             match &got {
